@@ -215,6 +215,22 @@ def explicit_battery(chk, wd, lua_ok):
                               "diff": None, "args": [], "terminal": True,
                               "env": {"BLOCKWATCH_AI_API_URL": "http://127.0.0.1:9/v1"}})
                 meta[cid] = (what, "invalid")
+    # the same malformed blocks reached through a diff: touched only in their start tag, or in their content
+    for what, subj in bad:
+        for touch in ("tag", "content"):
+            if touch == "content" and len(subj) < 3:
+                continue
+            f1 = list(HEALTHY[:2])
+            f1.insert(1, subj)
+            first = len(HEALTHY[0]) + 1                    # line of the subject's start tag
+            ln = first if touch == "tag" else first + 1
+            text = "\n".join("\n".join(b) for b in f1) + "\n"
+            cid = "x%d" % k
+            k += 1
+            cases.append({"id": cid, "files": {"f1.py": text}, "args": [], "terminal": False,
+                          "diff": "diff --git a/f1.py b/f1.py\n--- a/f1.py\n+++ b/f1.py\n@@ -%d +%d @@\n-old text\n+%s\n" % (ln, ln, text.split("\n")[ln - 1]),
+                          "env": {"BLOCKWATCH_AI_API_URL": "http://127.0.0.1:9/v1"}})
+            meta[cid] = ("%s (diff touches the %s only)" % (what, touch), "invalid")
     for what, subj, want in good:
         cid = "x%d" % k
         k += 1
